@@ -121,9 +121,11 @@ def crash_summary(ans):
     """One line naming what the crash was (for `what`)."""
     err = ans.get("stderr", "")
     for line in err.splitlines():
-        if "ERROR: AddressSanitizer" in line or "runtime error:" in line or "Fatal Python error" in line:
+        if "ERROR: AddressSanitizer" in line or "runtime error:" in line or "Fatal Python error" in line \
+                or line.startswith("SUMMARY:"):
             return line.strip()[:200]
-    return "exit status %s" % ans.get("crash")
+    tail = [l.strip() for l in err.splitlines() if l.strip()]
+    return "exit status %s%s" % (ans.get("crash"), (" - " + tail[-1][:160]) if tail else "")
 
 
 # ======================================================================= child
